@@ -25,9 +25,19 @@ def gen_literal(schema, ty, t, null_pct=15, varhook=None, depth=0, loc_default=F
     if inner[0] == "L":
         item = inner[1]
         if t.chance(12):
-            v = gen_literal(schema, item, t, 0, None, depth + 1)
+            # single value coerced to a list of one; variables may sit INSIDE it (an object literal without
+            # brackets), not be it: a variable of the item type is not allowed at a list position
+            first = [True]
+
+            def inner_hook(ty2, ld):
+                if first[0]:
+                    first[0] = False
+                    return None
+                return varhook(ty2, ld)
+
+            v = gen_literal(schema, item, t, 0, inner_hook if varhook is not None else None, depth + 1)
             if v[0] not in ("null", "var"):
-                return v  # single value coerced to a list of one
+                return v
         n = t.rint(0, 3)
         return ("list", [gen_literal(schema, item, t, null_pct, varhook, depth + 1) for _ in range(n)])
     name = inner[1]
